@@ -18,7 +18,7 @@ RULE = (
     "Oracle: untouched TFP distribution, independent bijector instance, Jacobian by autodiff. "
     "non-trivial = non-identity bijector and a point with |log-Jacobian| > 0.05; distinct by case hash"
 )
-REQUIRED = ["original_value_unchanged", "original_is_bijector_image", "density_change_of_variables",
+REQUIRED = ["unchanged_after_failed_transform", "original_value_unchanged", "original_is_bijector_image", "density_change_of_variables",
             "parameter_flag_moved", "original_has_no_distribution", "entry_var_transform_instance",
             "entry_var_transform_class", "entry_var_transform_default", "entry_auto_transform",
             "entry_graphbuilder_transform"]
@@ -44,7 +44,7 @@ def dist_args(rng, fam):
         "Exponential": {"rate": u(0.3, 3)},
         "LogNormal": {"loc": float(rng.integers(-1, 2)), "scale": u(0.3, 1.5)},
         "Beta": {"concentration1": u(0.8, 4), "concentration0": u(0.8, 4)},
-        "Uniform": {"low": 0.0, "high": 1.0},
+        "Uniform": {"low": float(rng.choice([0.0, -1.0])), "high": float(np.round(rng.uniform(1.0, 3.0), 2))},
         "Normal": {"loc": float(rng.integers(-2, 3)), "scale": u(0.5, 3)},
     }[fam]
 
@@ -67,16 +67,26 @@ def gen_case(rng, idx, seed):
     else:
         entry = str(rng.choice(["var_instance", "gb_instance", "var_instance", "gb_class_noargs"]))
     args = dist_args(rng, fam)
-    arg_is_var = {k: bool(rng.random() < 0.4) for k in args if not (fam in ("HalfCauchy", "Uniform") and k in ("loc", "low", "high"))}
+    arg_is_var = {k: bool(rng.random() < 0.4) for k in args if not (fam == "HalfCauchy" and k == "loc")}
+    if fam == "Uniform":
+        if bij == "Sigmoid":
+            # the plain Sigmoid maps onto (0,1): only admissible for Uniform(0,1)
+            args = {"low": 0.0, "high": 1.0}
+            arg_is_var = {}
+        else:
+            arg_is_var["high"] = bool(rng.random() < 0.6)
     return {"idx": idx, "seed": seed, "fam": fam, "bij": bij, "entry": entry, "args": args, "arg_is_var": arg_is_var,
             "shape": [] if rng.random() < 0.6 else [3], "parameter": bool(rng.random() < 0.7),
             "bij_arg": float(np.round(rng.uniform(0.5, 3.0), 2)), "bij_arg_is_var": bool(rng.random() < 0.5),
-            "x64": bool(idx % 4 == 0)}
+            "x64": bool(idx % 4 == 0), "failed_first": str(rng.choice(["none", "none", "instance_with_args", "class_without_args", "bad_kwarg"]))}
 
 
-def support_value(rng, fam, shape):
+def support_value(rng, fam, shape, args=None):
     if fam in POS:
         return np.round(np.exp(rng.normal(0, 0.7, size=shape)), 3)
+    if fam == "Uniform":
+        lo, hi = args["low"], args["high"]
+        return np.round(lo + (hi - lo) * rng.uniform(0.15, 0.85, size=shape), 3)
     if fam in UNIT:
         return np.round(rng.uniform(0.1, 0.9, size=shape), 3)
     return np.round(rng.normal(0, 1.5, size=shape), 3)
@@ -110,7 +120,7 @@ def run_case(case):
             else:
                 dargs[k] = jnp.asarray(v, ft)
         Dist = getattr(tfd, fam)
-        v0 = support_value(rng, fam, shape)
+        v0 = support_value(rng, fam, shape, case["args"])
         var = lsl.Var(jnp.asarray(v0, ft), lsl.Dist(Dist, **dargs), name="x")
         var.parameter = case["parameter"]
         barg_var = None
@@ -120,6 +130,24 @@ def run_case(case):
                 barg_var = lsl.Var(jnp.asarray(barg, ft), name="barg")
         gb = lsl.GraphBuilder(to_float32=not x64)
         tvar = None
+        ff = case.get("failed_first", "none")
+        if ff != "none" and entry.startswith("var_"):
+            # a transform call that must fail, and must leave the variable exactly as it was
+            res.mon("unchanged_after_failed_transform")
+            try:
+                if ff == "instance_with_args":
+                    var.transform(tfb.Exp(), 1.0)
+                elif ff == "class_without_args":
+                    var.transform(tfb.Scale)
+                else:
+                    var.transform(tfb.Scale, not_a_parameter=2.0)
+                res.violation("bad-transform-accepted", f"Var.transform with an invalid call ({ff}) did not raise", w)
+            except Exception:  # noqa: BLE001
+                pass
+            if (var.parameter != case["parameter"] or not var.has_dist or not var.strong
+                    or not np.array_equal(np.asarray(var.value), np.asarray(jnp.asarray(v0, ft)))):
+                res.violation("changed-by-failed-transform", f"a failed Var.transform ({ff}) changed the variable: parameter="
+                              f"{var.parameter} (was {case['parameter']}), has_dist={var.has_dist}, strong={var.strong}", w)
         with warnings.catch_warnings():
             warnings.simplefilter("ignore")
             if entry == "var_instance":
